@@ -1,5 +1,6 @@
 import Rangers.Model.VrfCurve
 import Rangers.Proofs.C16Window
+import Rangers.Proofs.C16Radix
 /-!
 Property C16, part 6: the sliding-window scalar multiplication of the code
 (`slide` + `GeDoubleScalarMultVartime`, which the driver executes as `VrfCurve.smul`) against
@@ -50,5 +51,24 @@ theorem slideSound_spec (k : Nat) (h : slideSound k = true) :
   unfold slideSound at h
   simp only [Bool.and_eq_true, List.all_eq_true, Bool.or_eq_true, beq_iff_eq] at h
   exact ⟨fun d hd => h.1.1 d hd, h.2⟩
+
+/-! ### `GeScalarMultBase`: signed radix-16 digits and the table of multiples of B -/
+
+open Rangers.Proofs.C16Radix in
+/-- The 64 signed digits `GeScalarMultBase` computes represent the scalar exactly — for EVERY scalar below
+    2^256 (unlike `slide`, no precondition and no unproved carry invariant). -/
+theorem signed_radix16_represents_scalar (k : Nat) (hk : k < 16 ^ 64) :
+    valueR 16 (signedRadix16 k) = (k : Int) := signedRadix16_value k hk
+
+open Rangers.Proofs.C16Radix in
+/-- `GeScalarMultBase` (odd digits, ×16, even digits, table entry `tbl pos d = d·256^pos·B`) computes k • B
+    in any commutative group, for every scalar below 2^256. -/
+theorem base_mul_computes_multiple {G : Type} [AddCommGroup G] (B : G) (tbl : Nat → Int → G)
+    (htbl : ∀ pos d, tbl pos d = (d * 256 ^ pos) • B) (k : Nat) (hk : k < 16 ^ 64) :
+    baseMulWith (0 : G) (fun x => x + x) (· + ·) tbl (signedRadix16 k) = (k : Int) • B :=
+  radix16_mul B tbl htbl k hk
+
+/-- non-vacuity / shape: the digits of 2^255 − 1 are −1, then 62 zeros, then 8 (all within [−8, 8]) -/
+example : signedRadix16 (2 ^ 255 - 1) = (-1 : Int) :: List.replicate 62 0 ++ [8] := by decide +kernel
 
 end Rangers.Props.C16Window
